@@ -228,7 +228,7 @@ func (h *H) projHeader(g *Gen, ci int, mode string) {
 	_, es, err := entriesOf(hb)
 	_, des, err2 := entriesOf(db0)
 	if err != nil || err2 != nil {
-		res.Note("proj: split header: %v %v", err, err2)
+		res.Fatalf("proj: split header: %v %v", err, err2)
 		return
 	}
 	wanted := []string{"Hash", "GlobalStateRoot", "TransactionCount", "Timestamp", "EventsBloom"}
@@ -237,7 +237,7 @@ func (h *H) projHeader(g *Gen, ci int, mode string) {
 		mem := memory.New()
 		const num = 42
 		if err := mem.Put(db.BlockHeaderByNumberKey(num), raw); err != nil {
-			res.Note("proj: put: %v", err)
+			res.Fatalf("proj: put: %v", err)
 			return
 		}
 		var d db.KeyValueStore = newPoisonStore(mem) // reads see recycled buffers
@@ -360,7 +360,7 @@ func (h *H) projBlob(g *Gen, ci int, mode string) {
 	_, dtes, err3 := entriesOf(dtb)
 	_, dres, err4 := entriesOf(drb)
 	if err != nil || err2 != nil || err3 != nil || err4 != nil {
-		res.Note("proj: split items: %v %v %v %v", err, err2, err3, err4)
+		res.Fatalf("proj: split items: %v %v %v %v", err, err2, err3, err4)
 		return
 	}
 	put := func(items [][]byte, nt int) (db.KeyValueStore, []byte) {
